@@ -75,6 +75,13 @@ def programs(rng, quick):
 
     def gu(prog, label, wrapper, args, outs, f32=False):
         out.append((prog, label, "gufunc", wrapper, args, outs, f32))
+        if label not in strided_done.setdefault(prog, set()) and len(strided_done[prog]) < (3 if quick else 12):
+            # the same call with every array argument a non-contiguous view (every other cell of a junk-filled buffer):
+            # the interpreter honours strides, a compiled kernel with a contiguous-array signature would not
+            strided_done[prog].add(label)
+            out.append((prog, label + ",strided", "gufunc-strided", wrapper, args, outs, f32))
+
+    strided_done = {}
 
     reps = 2 if quick else 12
     for _ in range(reps):
@@ -175,7 +182,20 @@ def programs(rng, quick):
 def run_pair(entry):
     prog, label, kind, f, args, outs, f32 = entry
     rec = {"prog": prog, "label": label, "pyexc": "", "jitexc": "", "py": [], "jit": [], "cls": [], "raw": []}
-    copy = lambda a: tuple(x.copy() if isinstance(x, np.ndarray) else x for x in a)  # noqa: E731
+    if kind == "gufunc-strided":
+        kind = "gufunc"
+
+        def copy(a):
+            res = []
+            for x in a:
+                if isinstance(x, np.ndarray) and x.ndim >= 1:
+                    big = np.full(x.shape[:-1] + (2 * x.shape[-1] + 1,), 77, dtype=x.dtype)
+                    big[..., 1::2] = x
+                    x = big[..., 1::2]
+                res.append(x)
+            return tuple(res)
+    else:
+        copy = lambda a: tuple(x.copy() if isinstance(x, np.ndarray) else x for x in a)  # noqa: E731
     with warnings.catch_warnings(), np.errstate(all="ignore"):
         warnings.simplefilter("ignore")
         try:
